@@ -138,6 +138,29 @@ def replay_state(exe, st, cwd):
         return {"ok": None, "error": (o + e)[-600:]}
 
 
+def native_stage(chk):
+    exe = native(chk)
+    n = 300 if chk.tier == "quick" else 20000
+    rc, o, e, secs = hv.run([exe, "sweep", str(chk.seed), str(n)], timeout=3000, cwd=chk.out)
+    try:
+        sw = json.loads(o.strip().splitlines()[-1])
+    except Exception:
+        raise hv.Infra("native hextb sweep failed: " + (o + e)[-800:])
+    sw["stage"] = ("hextb.cpp's own load()/run() on the natively Verilated model from planted adversarial and seeded random power-on states, incl. programs that exit with a "
+                   "word they never wrote (directly behind the image and anywhere): outcome must equal the clean-state outcome")
+    sw["secs"] = round(secs, 1)
+    chk.native.append(sw)
+    if sw.get("mismatches", 0):
+        p = chk.replay_path("native")
+        json.dump({"property": PID, "obligation": "native power-on sweep", "state": sw["first"], "real_code_result": sw}, open(p, "w"), indent=1)
+        chk.add_violation("native-sweep", p, "hextb outcome depends on the power-on state: %s" % sw.get("why"), True)
+    return exe
+
+
+def native_only(chk):
+    native_stage(chk)
+
+
 def main(chk, replay_file):
     tier = chk.tier
     unit, info = build_unit(chk)
@@ -170,20 +193,7 @@ def main(chk, replay_file):
         jobs.append(J("reset_window.contract@kissat", unit, "h_reset_window", unwind=uw, flags=wl, solver=["--external-sat-solver", "kissat"], stop_on_fail=True, timeout=3000, note="second back end: kissat (CBMC's SMT2 conversion aborts with map::at on the Verilator units, so cvc5/z3 are unusable here)"))
     chk.jobs = jobs
     hv.run_jobs(jobs, chk.out)
-    exe = native(chk)
-    n = 300 if tier == "quick" else 20000
-    rc, o, e, secs = hv.run([exe, "sweep", str(chk.seed), str(n)], timeout=3000, cwd=chk.out)
-    try:
-        sw = json.loads(o.strip().splitlines()[-1])
-    except Exception:
-        raise hv.Infra("native hextb sweep failed: " + (o + e)[-800:])
-    sw["stage"] = "hextb.cpp's own run() on the natively Verilated model from planted adversarial and random power-on states: outcome must equal the clean-state outcome"
-    sw["secs"] = round(secs, 1)
-    chk.native.append(sw)
-    if sw.get("mismatches", 0):
-        p = chk.replay_path("native")
-        json.dump({"property": PID, "obligation": "native power-on sweep", "state": sw["first"], "real_code_result": sw}, open(p, "w"), indent=1)
-        chk.add_violation("native-sweep", p, "hextb outcome depends on the power-on state: %s" % sw.get("why"), True)
+    exe = native_stage(chk)
     for j in jobs:
         r = j.result
         if j.kind != "proof" or r["status"] != "failed":
